@@ -11,6 +11,8 @@
 #include "nmtools/array/view/flatten.hpp"
 #include "nmtools/array/view/broadcast_to.hpp"
 #include "nmtools/array/view/concatenate.hpp"
+#include "nmtools/array/view/roll.hpp"
+#include "nmtools/array/view/pad.hpp"
 #include "nmtools/array/view/matmul.hpp"
 #include "nmtools/array/view/sum.hpp"
 #include "nmtools/array/view/ufuncs/add.hpp"
@@ -70,3 +72,12 @@ KERNEL int K(k_v_sum)(SRC, int axis, OBSV){ MK;
 KERNEL int K(k_v_concatenate)(SRC, const size_t* bshape, const unsigned* bdata, int axis, OBSV){ MK;
   a2_t b; if (!mk2(b,bshape,bdata)) return -1;
   return observe(view::concatenate(a, b, axis), idx, nidx, oshape, odim, out); }
+// depth 1: broadcast_to with any target (bounded vector of run-time length)
+KERNEL int K(k_v_broadcast_to)(SRC, const size_t* target, size_t nt, OBSV){ MK;
+  return observe(view::broadcast_to(a, mk_sv<size_t,4>(target,nt)), idx, nidx, oshape, odim, out); }
+// roll with a run-time shift and axis
+KERNEL int K(k_v_roll)(SRC, int shift, int axis, OBSV){ MK;
+  return observe(view::roll(a, shift, axis), idx, nidx, oshape, odim, out); }
+// depth 2: pad with a run-time list of widths (may have the wrong length) -> transpose
+KERNEL int K(k_v_pad_transpose)(SRC, const size_t* pw, size_t npw, unsigned value, OBSV){ MK;
+  return observe(view::transpose(view::pad(a, mk_sv<size_t,8>(pw,npw), value)), idx, nidx, oshape, odim, out); }
